@@ -180,7 +180,8 @@ class Lin:
                 q.pop(0)
 
     # ------------------------------------------------------------ main
-    def build(self):
+    def build(self, partial=False):
+        """partial: the caller never returned (hang): linearise what was observed."""
         for e in self.loop:
             k = e["k"]
             if k == "LEnqRecv":
@@ -234,6 +235,9 @@ class Lin:
         # everything the workers still did
         for g in sorted(self.wq):
             self.flush_worker(g, None)
+        if partial:
+            self.lines.append("END")
+            return self.lines
         # the caller's return
         self.ensure_wait()
         ret = [e for e in self.caller if e["k"] in ("CWaitRetCtx", "CWaitRetFin")]
